@@ -46,3 +46,15 @@ func verifRange[K comparable, V any](m *Map[K, V], f func(key K, value V) bool) 
 	}
 	return true, all
 }
+
+// VerifTable returns a copy of the channel assignment table (key -> value) and
+// whether the key side is the source side. Only with the verif tag.
+func (c *ChannelMapping) VerifTable() (table map[string]string, sourceIsKey bool, sourceCnt, targetCnt int) {
+	table = make(map[string]string)
+	for _, m := range []map[string]string{c.sameMapping, c.sourceMapping, c.targetMapping} {
+		for k, v := range m {
+			table[k] = v
+		}
+	}
+	return table, c.UsingSourceKey(), c.sourceCnt, c.targetCnt
+}
